@@ -484,8 +484,9 @@ def run_plan(plan):
                             cls = "atomic-rollback-incomplete"
                     elif overlap and _chain_ok(
                             v0, vend, ok_cmds, maybe + [
-                                (o, w, p_) for (o, w, p_, s_) in ng_cmds
-                                if "atomic push failed" in s_]):
+                                e_ for (o, w, p_, s_) in ng_cmds
+                                if "atomic push failed" in s_
+                                for e_ in ((o, w, p_), (w, o, p_))]):
                         # the chain only closes if a command of an atomic
                         # push that was *reported failed* took effect for a
                         # while: another pusher's update was conditioned on
